@@ -460,7 +460,7 @@ FINDING_KEYS = ("page-entry-per-location", "severity-missing-in-classification-r
                 "page-annotation-missing-inconclusive-not-true", "page-annotation-duplicated-after-012")
 
 
-def one_case(ctx, res, drv, errs, name, k, d, decode, ts):
+def one_case(ctx, res, drv, errs, name, k, d, decode, ts, mline=None):
     out = os.path.join(d, "out")
     rcp = os.path.join(d, "rc.txt")
     rct = open(rcp).read().split("\n", 1) if os.path.exists(rcp) else ["99", "the script was not run"]
@@ -474,8 +474,10 @@ def one_case(ctx, res, drv, errs, name, k, d, decode, ts):
     impl = impl_lines(out, errs)
     pg = pages_of(out)
     op = op_of(errs, ts, decode)
-    rc2, mo, me = core.run_lines(drv, [], [op])
-    model = mo[0].split(" ") if mo else ["<no output>"]
+    if mline is None:
+        rc2, mo, me = core.run_lines(drv, [], [op])
+        mline = mo[0] if mo else "<no output>"
+    model = mline.split(" ")
     model_rows = [x for x in model if x[:2] in ("R:", "G:")]
     model_menus, model_ann, page_file = {}, {}, {}
     for x in model:
@@ -547,9 +549,12 @@ def run(ctx, res):
         run_many(ctx, [prepared[k][0] for k in range(len(corpus), len(cases))], 6)
         [f.result() for f in fut]
     res.extra["script_runs_s"] = round(time.time() - t0, 1)
+    rc, mo, me = core.run_lines(drv, [], [op_of(errs, prepared[k][2], prepared[k][1]) for k, errs in enumerate(cases)])
+    if len(mo) != len(cases):
+        raise core.CheckBroken("C36 driver answered %d of %d ops: %s" % (len(mo), len(cases), me[-300:]))
     for k, errs in enumerate(cases):
         d, decode, ts = prepared[k]
-        r = one_case(ctx, res, drv, errs, "index", k, d, decode, ts)
+        r = one_case(ctx, res, drv, errs, "index", k, d, decode, ts, mo[k])
         if r is not None and not r[0]:
             bad.append(r[1])
     res.oblig("correspondence:index-rows-menus-annotations", not bad, "correspondence",
